@@ -35,6 +35,10 @@ HOW = {
     "C04-m9": "after also conjugating the wrapped label of an unknown name (it is wrapped again, whatever was asked before)",
     "C13-m10": "after adding in-place edits of the top-level final state through pop / clear+update / setdefault / popitem and rendering again",
     "C18-m10": "after adding two amplitudes with three identical final-state particles (6 orderings) to the emit family",
+    "C09-m9": "after adding earlier expand_decay_modes calls and in-place edits of returned chains before the chains are compared (empty stable set always included)",
+    "C11-m9": "after adding None as a top-level and a nested metadata value",
+    "C11-m10": "after adding strings padded with blanks / tabs / line ends to the constructors",
+    "C17-m10": "after letting the coherent-sum option stand before, between or after the decay lines",
     "C09-m8": "after adding the re-parse history (same parser parsed before with the other include_ccdecays setting and queried)",
 }
 rows = []
@@ -58,7 +62,7 @@ out = ["Seeds: `-mN` written by independent sub-agents that saw only the propert
        "`tools/verify_seed.sh`: demo passes on the clean tree, fails with the patch, 282 tests still pass); `-aN` written by me from the changes",
        "the property texts report as surviving the suite; `-prefixFn` the reverse of my own fix commits. Every row was produced by",
        "`tools/seed_matrix.sh` (quick tier, scratch copy of /repo). *how* says whether the check caught the change as it stood when the change",
-       "arrived (\"first\") or what had to be added after a miss - 98 of the 132 sub-agent changes were caught at first try; the misses are the reason for the session-history dimension, the boundary values (zero, None, empty) and the symbolic-value harnesses.", "",
+       "arrived (\"first\") or what had to be added after a miss - 109 of the 147 sub-agent changes were caught at first try; the misses are the reason for the session-history dimension, the boundary values (zero, None, empty) and the symbolic-value harnesses.", "",
        "| seed | origin | change | caught by (first obligation that fails) | how |", "|---|---|---|---|---|"]
 for r in rows:
     out.append("| " + " | ".join(r) + " |")
